@@ -168,14 +168,14 @@ func c04Scan(model gm.G, g geom.Geometry, lib, mixed []byte, cx *h.Ctx) *h.Failu
 	}
 	cx.Class("scan=exercised")
 	for si, src := range []interface{}{lib, string(lib), mixed, string(mixed)} {
-		var dst geom.Geometry
+		dst := dirty(gm.Types[si%len(gm.Types)]) // the destination already holds another value
 		if err := dst.Scan(src); err != nil {
 			return h.Failf("wkb/scan-error", "Geometry.Scan (source %d) fails on a valid geometry %s: %v", si, model, err)
 		}
 		if d := gm.Diff(model, gm.FromGeom(dst)); d != "" {
 			return h.Failf("wkb/scan-differs", "Geometry.Scan gives a different geometry for %s: %s", model, d)
 		}
-		var ng geom.NullGeometry
+		ng := geom.NullGeometry{Geometry: dirty(gm.Types[(si+3)%len(gm.Types)]), Valid: si%2 == 0}
 		if err := ng.Scan(src); err != nil || !ng.Valid {
 			return h.Failf("wkb/nullscan-error", "NullGeometry.Scan fails on %s: %v valid=%v", model, err, ng.Valid)
 		}
@@ -207,43 +207,43 @@ func c04Scan(model gm.G, g geom.Geometry, lib, mixed []byte, cx *h.Ctx) *h.Failu
 	}
 	targets := []target{
 		{gm.Point, func(s interface{}) (geom.Geometry, driver.Value, error) {
-			var x geom.Point
+			x := dirty("Point").MustAsPoint() // the destination already holds another value
 			err := x.Scan(s)
 			v, _ := x.Value()
 			return x.AsGeometry(), v, err
 		}},
 		{gm.LineString, func(s interface{}) (geom.Geometry, driver.Value, error) {
-			var x geom.LineString
+			x := dirty("LineString").MustAsLineString() // the destination already holds another value
 			err := x.Scan(s)
 			v, _ := x.Value()
 			return x.AsGeometry(), v, err
 		}},
 		{gm.Polygon, func(s interface{}) (geom.Geometry, driver.Value, error) {
-			var x geom.Polygon
+			x := dirty("Polygon").MustAsPolygon() // the destination already holds another value
 			err := x.Scan(s)
 			v, _ := x.Value()
 			return x.AsGeometry(), v, err
 		}},
 		{gm.MultiPoint, func(s interface{}) (geom.Geometry, driver.Value, error) {
-			var x geom.MultiPoint
+			x := dirty("MultiPoint").MustAsMultiPoint() // the destination already holds another value
 			err := x.Scan(s)
 			v, _ := x.Value()
 			return x.AsGeometry(), v, err
 		}},
 		{gm.MultiLineString, func(s interface{}) (geom.Geometry, driver.Value, error) {
-			var x geom.MultiLineString
+			x := dirty("MultiLineString").MustAsMultiLineString() // the destination already holds another value
 			err := x.Scan(s)
 			v, _ := x.Value()
 			return x.AsGeometry(), v, err
 		}},
 		{gm.MultiPolygon, func(s interface{}) (geom.Geometry, driver.Value, error) {
-			var x geom.MultiPolygon
+			x := dirty("MultiPolygon").MustAsMultiPolygon() // the destination already holds another value
 			err := x.Scan(s)
 			v, _ := x.Value()
 			return x.AsGeometry(), v, err
 		}},
 		{gm.GeometryCollection, func(s interface{}) (geom.Geometry, driver.Value, error) {
-			var x geom.GeometryCollection
+			x := dirty("GeometryCollection").MustAsGeometryCollection() // the destination already holds another value
 			err := x.Scan(s)
 			v, _ := x.Value()
 			return x.AsGeometry(), v, err
@@ -282,3 +282,22 @@ func TestC04(t *testing.T) {
 }
 
 var _ = fmt.Sprintf
+
+// dirty returns a non-empty XYZM geometry of the named type: decode destinations are pre-populated with it so
+// that a decoder which only partly overwrites its receiver shows.
+func dirty(typ string) geom.Geometry {
+	wkt := map[string]string{
+		"Point":              "POINT ZM(9 9 9 9)",
+		"LineString":         "LINESTRING ZM(9 9 9 9,8 8 8 8)",
+		"Polygon":            "POLYGON ZM((9 9 9 9,8 9 8 8,8 8 7 7,9 9 9 9))",
+		"MultiPoint":         "MULTIPOINT ZM((9 9 9 9),(8 8 8 8))",
+		"MultiLineString":    "MULTILINESTRING ZM((9 9 9 9,8 8 8 8))",
+		"MultiPolygon":       "MULTIPOLYGON ZM(((9 9 9 9,8 9 8 8,8 8 7 7,9 9 9 9)))",
+		"GeometryCollection": "GEOMETRYCOLLECTION ZM(POINT ZM(9 9 9 9))",
+	}[typ]
+	g, err := geom.UnmarshalWKT(wkt)
+	if err != nil {
+		panic(h.HarnessBug("dirty geometry does not parse: " + err.Error()))
+	}
+	return g
+}
